@@ -358,6 +358,128 @@ theorem setEdgeList_errors (net : Net) :
       cases net.directed <;> simp [hp]
     simp [this]
 
+/-! ## SpatialNetwork / GeoNetwork -/
+
+/-- **GeoNetwork constructor**: the canonical network with the weights of the
+requested `node_weight_type` (cos lat, cos² lat or ones) — assigned through the
+node-weight setter, so total and mean are theirs -/
+theorem geo_path (d : Bool) (N : Nat) (hN : 2 ≤ N) (a : Nat → Nat → Bool) (cl : List Rat)
+    (hcl : cl.length = N) (t : Nat) :
+    geoInit d (.sparse (ofDenseMat N N (ind a))) cl t
+      = .ok (ofGraph d N a (weightsOf N (geoWeights cl t)) none) := by
+  unfold geoInit
+  rw [init_dense_none d N hN a]
+  show setWeights (ofGraph d N a (List.replicate N 1) none) (geoWeights cl t) = _
+  apply setWeights_ofGraph
+  intro x hx
+  unfold geoWeights at hx
+  split at hx
+  · simp only [Option.some.injEq] at hx; subst hx; exact hcl
+  · split at hx
+    · simp only [Option.some.injEq] at hx; subst hx; simpa using hcl
+    · cases hx
+
+/-- **`SpatialNetwork.Load` / `GeoNetwork.Load`** (rebuild from the dense adjacency
+of the stored graph, assign the stored weights, attach the stored graph): the
+identity on the canonical network, whatever weights the constructor put first -/
+theorem load_via_adjacency (d : Bool) (N : Nat) (hN : 2 ≤ N) (a : Nat → Nat → Bool)
+    (hs : Simple d N a) (w : List Rat) (hw : w.length = N) (ea : Option (List Rat))
+    (gw : Option (Option (List Rat))) (hgw : ∀ x, gw = some (some x) → x.length = N) :
+    loadViaAdjacency (toIGraph (ofGraph d N a w ea)) gw = .ok (ofGraph d N a w ea) := by
+  have hg : toIGraph (ofGraph d N a w ea)
+      = ⟨N, d, graphEdges d N (cells N a), some w, ea⟩ := rfl
+  rw [hg]
+  unfold loadViaAdjacency
+  simp only
+  have hadj : ofDenseMat N N (igAdj ⟨N, d, graphEdges d N (cells N a), some w, ea⟩)
+      = ofDenseMat N N (ind a) := by
+    apply ofDenseMat_congr
+    intro i j hi hj
+    rw [igAdj_simple _ (simpleEdges_graphEdges d N a)]
+    unfold ind
+    rw [rel_graphEdges d N a hs i j hi hj]
+  rw [hadj, init_dense_none d N hN a]
+  simp only [bind, Except.bind]
+  have h1 : ∃ w1, assignWeights (ofGraph d N a (List.replicate N 1) none) gw
+      = .ok (ofGraph d N a w1 none) := by
+    cases gw with
+    | none => exact ⟨_, rfl⟩
+    | some x =>
+      refine ⟨weightsOf N x, ?_⟩
+      show setWeights _ x = _
+      apply setWeights_ofGraph
+      intro y hy; subst hy; exact hgw y rfl
+  obtain ⟨w1, h1⟩ := h1
+  rw [h1]
+  simp only [Option.map_some]
+  unfold assignWeights
+  simp only
+  rw [setWeights_ofGraph d N a w1 none (some w) (fun x hx => by
+    simp only [Option.some.injEq] at hx; subst hx; exact hw)]
+  rfl
+
+/-! ## link attributes -/
+
+/-- **`link_attribute(set_link_attribute(V))`** is `V` on the linked pairs and 0
+elsewhere (for undirected networks `V` symmetric, as documented) -/
+theorem linkAttr_setLinkAttr (net : Net) (V : Nat → Nat → Rat)
+    (hV : net.directed = false → ∀ i j, V j i = V i j) :
+    ∃ f, linkAttr (setLinkAttr net V) = some f ∧
+      ∀ i j, f i j = if rel net.directed net.graph i j then V i j else 0 := by
+  unfold linkAttr setLinkAttr
+  simp only
+  by_cases hE : net.graph.isEmpty = true
+  · refine ⟨fun _ _ => 0, by simp [hE], ?_⟩
+    intro i j
+    have : net.graph = [] := List.isEmpty_iff.1 hE
+    simp [rel, this]
+  · simp only [hE, Bool.false_eq_true, if_false, Option.map_some]
+    refine ⟨_, rfl, ?_⟩
+    intro i j
+    exact lastVal_map net.directed net.graph (fun e => V e.1 e.2) i j (fun hd => hV hd i j)
+
+
+/-- **copy of a network with a link attribute**: the copy is the same canonical
+network and `link_attribute(name)` returns the same matrix -/
+theorem copy_link_attribute (d : Bool) (N : Nat) (hN : 2 ≤ N) (a : Nat → Nat → Bool)
+    (w : List Rat) (hw : w.length = N) (vs : List Rat) :
+    ∃ c, copy (ofGraph d N a w (some vs)) = .ok c
+      ∧ { c with eattr := none } = ofGraph d N a w none
+      ∧ ∀ f, linkAttr (ofGraph d N a w (some vs)) = some f →
+          ∃ f', linkAttr c = some f' ∧ ∀ i j, f' i j = f i j := by
+  have hsome : ∃ f, linkAttr (ofGraph d N a w (some vs)) = some f := by
+    unfold linkAttr
+    split
+    · exact ⟨_, rfl⟩
+    · exact ⟨_, rfl⟩
+  obtain ⟨f, hf⟩ := hsome
+  refine ⟨setLinkAttr (ofGraph d N a w none) f, ?_, rfl, ?_⟩
+  · unfold copy
+    rw [sparse_ofGraph]
+    have h1 : (ofGraph d N a w (some vs)).directed = d := rfl
+    have h2 : (ofGraph d N a w (some vs)).w = w := rfl
+    have h3 : (ofGraph d N a w (some vs)).eattr = some vs := rfl
+    rw [h1, h2, h3, init_dense d N hN a w hw, hf]
+    rfl
+  · intro f0 hf0
+    rw [hf] at hf0
+    simp only [Option.some.injEq] at hf0
+    subst hf0
+    obtain ⟨f', h1, h2⟩ := linkAttr_setLinkAttr (ofGraph d N a w none) f
+      (fun hd i j => linkAttr_symm (ofGraph d N a w (some vs)) hd f hf i j)
+    refine ⟨f', h1, ?_⟩
+    intro i j
+    rw [h2]
+    split
+    · rfl
+    · rename_i hr
+      have hr' : rel (ofGraph d N a w (some vs)).directed (ofGraph d N a w (some vs)).graph i j
+          = false := by
+        have : rel (ofGraph d N a w none).directed (ofGraph d N a w none).graph i j = false := by
+          simpa using hr
+        exact this
+      exact (linkAttr_zero _ f hf i j hr').symm
+
 /-! ## non-vacuity: the hypotheses are satisfiable by non-trivial states -/
 
 /-- the path 0 - 1 - 2 plus the isolated node 3 -/
